@@ -9,6 +9,7 @@ mod hooks;
 mod rpkigen;
 mod etree;
 mod prom;
+mod sched;
 
 use std::path::{Path, PathBuf};
 use std::process::{Command, Stdio};
